@@ -1,0 +1,11 @@
+//go:build !verif
+// +build !verif
+
+package leveldb
+
+// Verification hooks (build tag "verif"); with the tag off these are empty and
+// inlined away.
+
+func verifYield(p int) {}
+
+func verifEvent(k int, a, b, c uint64) {}
